@@ -131,13 +131,17 @@ prop('C08',
 prop('C10',
      title='RFC 3339 output is conformant and input acceptance is exact',
      kani=['vk_fmt_rfc3339_secs', 'vk_fmt_offset'],
+     bounded=['vk_rfc3339_parse_bounded'],
+     kani_timeout=3000,
      twin=['fmt'],
-     uncovered=['acceptance of exactly the RFC 3339 grammar by parse_rfc3339 over all strings (hand-written &str scanner: no contract within reach)',
+     uncovered=['acceptance of exactly the RFC 3339 grammar by parse_rfc3339 beyond the bounded family (strings longer than 28 bytes, non-ASCII text such as the U+2212 minus)',
                 'fractional-second renderings Millis/Micros/Nanos/AutoSi (go through core::fmt write!)', 'years outside 0..=9999 (core::fmt path)',
                 'to_rfc3339 / to_rfc3339_opts String wrappers around write_rfc3339'],
      text='Kernel only. Kani proves write_rfc3339 with SecondsFormat::Secs for every date-time with wall-clock year 0..=9999 x every whole-minute offset x use_z: '
           'the 19 date/time bytes are the wall-clock fields (second 60 for a leap second), then Z (only on request and only for offset zero) or +hh:mm; and OffsetFormat::format '
-          'for every offset x precision x colon x padding x Z option against an independent byte-level rendering. Grammar-exact parsing over all strings is out of reach of function contracts.')
+          'for every offset x precision x colon x padding x Z option against an independent byte-level rendering. Bounded (complete within the bound): the strict reader parse_rfc3339 accepts EXACTLY the RFC 3339 grammar with chrono\'s documented latitude, with in-range field values and an offset within +/-23:59, '
+          'for every ASCII string of at most 28 bytes, stores exactly the digits written (fraction truncated to nanoseconds) and consumes exactly the date-time (independent byte-level recogniser in the harness). '
+          'Longer strings and non-ASCII text are covered by the twin only.')
 
 prop('C12',
      title='Every strftime specifier renders the documented field',
